@@ -1,6 +1,6 @@
 """Checks C01..C07 (pipeline A): command-line driver, parallel cell evaluation, known
 findings, replay files and evidence."""
-import os, sys, json, time, hashlib, traceback, collections, multiprocessing, re
+import os, sys, json, time, hashlib, traceback, collections, multiprocessing, re, subprocess
 import z3
 from . import core, build, pipea
 from .core import Outcome, Unsupported, PathCtl, check_valid, neq_bytes, eval_bytes, bv, simp
@@ -595,7 +595,9 @@ def worker(job):
     out = {'prog': pname, 'findings': [], 'inconclusive': [], 'rejects': {}, 'soft': {}, 'cells': 0, 'obligations': 0,
            'functions': {}, 'samples': [], 'missing': [], 'protoc_rc': e['rc']}
     if e['rc'] != 0:
-        out['protoc_reject'] = (e['stdout'] + e['stderr'])[-400:]
+        full = e['stdout'] + e['stderr']
+        diag = [l.strip() for l in full.split('\n') if re.search(r'line \d+|[Ee]rror|not allowed|[Dd]uplicate|[Uu]nknown|panic', l) and 'Usage' not in l]
+        out['protoc_reject'] = '\n'.join(diag[:3]) if diag else full[-400:]
         out['stats'] = core.STATS.as_dict()
         return out
     stats = pipea.CellStats()
@@ -647,7 +649,7 @@ def worker(job):
             if lfs:
                 w = spec.resolve(lfs[0])[1]
                 big = {'u8': [114, 241], 'i8': [100]}.get(w, [])
-                if tier == 'thorough' and w in ('u16',):
+                if tier == 'thorough' and w in ('u16',) and spec.name.startswith('len_u16_'):
                     big = big + [32800]
                 shapes = shapes + [Shape(n, 1, a) for n in big for a in range(max(1, nal))]
         for sh in shapes:
@@ -1178,8 +1180,55 @@ def main(prop, tier, update_known=False):
     with multiprocessing.get_context('fork').Pool(min(16, os.cpu_count() or 4)) as pool:
         results = pool.map(worker, jobs, chunksize=1)
     known = load_known()
+    byprog_all = {p.name: p for p in progs}
     total = core.Stats()
     bysig = collections.OrderedDict()
+    shared_runs = 0
+    if prop == 'C07':
+        # "whenever compiling succeeds, every declared packet has its type" also when the targets share one output directory
+        # (file names of different targets do not collide): the real binary is run once more per program with all six flags
+        # pointing at one directory; the file set must be the union of the per-language sets
+        import shutil
+        from concurrent.futures import ThreadPoolExecutor
+        binary = build.build_binary()
+
+        def shared(p):
+            e = emits[p.name]
+            if e['rc'] != 0:
+                return None
+            d = os.path.join(build.cache_dir(), 'shared_%s' % tier, p.name)
+            shutil.rmtree(d, ignore_errors=True)
+            os.makedirs(d)
+            try:
+                args = [binary, '-f', os.path.join(e['dir'], 'a.dsl')]
+                for lang, flag in build.LANG_FLAGS:
+                    args += [flag, d]
+                r = subprocess.run(args, capture_output=True, text=True, timeout=60, errors='replace')
+                got = set()
+                for root, _, names in os.walk(d):
+                    for n in names:
+                        got.add(os.path.relpath(os.path.join(root, n), d))
+                want = {}
+                for lang, fs in e['files'].items():
+                    for rel in fs:
+                        want.setdefault(rel, []).append(lang)
+                clash = sorted(rel for rel, ls in want.items() if len(ls) > 1)
+                return (p.name, r.returncode, sorted(set(want) - got), sorted(got - set(want)), clash, {rel: ls[0] for rel, ls in want.items()})
+            finally:
+                shutil.rmtree(d, ignore_errors=True)
+        with ThreadPoolExecutor(16) as ex:
+            for res in ex.map(shared, sel):
+                if res is None:
+                    continue
+                shared_runs += 1
+                pn, rc, miss, extra, clash, owner = res
+                if clash:
+                    continue            # two targets emit a file of the same name for this program: no claim about a shared directory
+                if rc != 0 or miss or extra:
+                    langs = sorted(set(owner[m] for m in miss))
+                    s = 'C07|protoc|%s|-|shared-dir|%s' % (pn, 'exit-%d' % rc if rc else ('missing:' + '+'.join(langs) if miss else 'extra-files'))
+                    bysig.setdefault(s, []).append({'property': 'C07', 'lang': 'protoc', 'program': pn, 'packet': '-', 'shape': None, 'signature': s, 'sig': s, 'cex': None,
+                                                    'detail': 'all six targets into one directory: exit %d, missing %s, unexpected %s' % (rc, miss[:4], extra[:4])})
     incon = []
     rejects = collections.OrderedDict()
     missing = []
@@ -1239,6 +1288,28 @@ def main(prop, tier, update_known=False):
             s = 'C07|%s|%s|%s|members|missing-member' % (lang, pn, pkn)
             bysig.setdefault(s, []).append({'property': 'C07', 'lang': lang, 'program': pn, 'packet': pkn, 'shape': None, 'signature': s,
                                             'detail': m, 'cex': None, 'sig': s})
+    if prop != 'C15':
+        # every program of the family is well-formed and uses documented constructs only (the exceptions are marked may_reject):
+        # when the compiler answers with a diagnostic there is no codec for which the property could hold
+        for pn, msg in protoc_rejects:
+            if getattr(byprog_all.get(pn), 'may_reject', False):
+                continue
+            first = ([l for l in msg.split('\n') if 'line' in l.lower() or 'error' in l.lower()] or [msg.strip().split('\n')[0]])[0]
+            s = '%s|protoc|%s|-|compile|rejected:%s' % (prop, pn, pipea.norm_detail(first, 80))
+            bysig.setdefault(s, []).append({'property': prop, 'lang': 'protoc', 'program': pn, 'packet': '-', 'shape': None, 'signature': s,
+                                            'detail': 'fin-protoc rejects a well-formed program of the family: ' + first[:160], 'cex': None, 'sig': s})
+    if prop in ('C04', 'C05', 'C06'):
+        # the programs of these families are built around the property's construct: when a target compiler rejects the code emitted
+        # for one of them, or the emitted type lacks the member, there is no encoder/decoder for which the property could hold
+        for (lang, e), ps in rejects.items():
+            for pn in ps:
+                s = '%s|%s|%s|-|frontend|%s' % (prop, lang, pn, pipea.norm_detail(e, 100))
+                bysig.setdefault(s, []).append({'property': prop, 'lang': lang, 'program': pn, 'packet': '-', 'shape': None, 'signature': s,
+                                                'detail': 'no codec to check: the target compiler rejects the emitted code: ' + e, 'cex': None, 'sig': s})
+        for pn, lang, pkn, m in missing:
+            s = '%s|%s|%s|%s|members|missing-member' % (prop, lang, pn, pkn)
+            bysig.setdefault(s, []).append({'property': prop, 'lang': lang, 'program': pn, 'packet': pkn, 'shape': None, 'signature': s,
+                                            'detail': 'no codec to check: ' + m, 'cex': None, 'sig': s})
     violations = []
     knowns = []
     for s, fs in bysig.items():
@@ -1292,7 +1363,7 @@ def main(prop, tier, update_known=False):
             'frontend_rejects': len(rejects), 'frontend_reject_samples': [[k[0], k[1], len(v)] for k, v in list(rejects.items())[:12]],
             'missing_member_cells': len(missing), 'protoc_rejected_programs': [p for p, _ in protoc_rejects],
             'known_findings_seen': len(knowns), 'new_findings': nviol, 'unconfirmed_counterexamples': unconfirmed[:10],
-            'cross_solver_diff': xres,
+            'cross_solver_diff': xres, 'shared_directory_runs_of_the_real_binary': shared_runs,
             'frontend_validation_vs_native': {'what': 'root packet, one pseudo-random concrete message per program: bytes computed by the front-end from the lowered emitted code vs bytes produced by the emitted code compiled and run natively with the reference runtime',
                                               'counts': {'%s:%s' % k: v for k, v in sorted(fev.items())}, 'disagreements': fev_bad[:8]},
         },
